@@ -416,7 +416,10 @@ func taMutate(r *rng, text string, s *sink) string {
 				// lap times whose components are signed, oversized or have the wrong number of digits
 				"# Lap 0: 00:-2:03.202", "# Lap 0: 00:02:03.-202", "# Lap 0: -1:02:03.202", "# Lap 0: 00:02:-3.202",
 				"# Lap 0: 9000000:02:03.202", "# Lap 0: 00:02:03.2020", "# Lap 0: 00:02:03", "# Lap 0: 00:02:03.", "# Lap 0: +1:+2:+3.+4",
-				"# Lap 0: 00:61:61.000", "# Lap 0: 0:0:0.0", "# End Point: -33.803610, 150.870900  @ 271.50 deg", "# End Point: 33.8, -150.8  @ -10 deg"})
+				"# Lap 0: 00:61:61.000", "# Lap 0: 0:0:0.0", "# End Point: -33.803610, 150.870900  @ 271.50 deg", "# End Point: 33.8, -150.8  @ -10 deg",
+				// end points whose fields look like numbers to the pattern and are none
+				"# End Point: 50.857952, -0.752617  @ 1.2.3 deg", "# End Point: 50.857952, -0.752617  @ - deg", "# End Point: 50.857952, -0.752617  @ 90-0 deg",
+				"# End Point: 50.8.5, -0.752617  @ 10 deg", "# End Point: 50.857952, -0.75-2  @ 10 deg", "# End Point: -, .  @ - deg"})
 		case 5: // blank line
 			lines = append(lines[:li+1], append([]string{""}, lines[li+1:]...)...)
 		case 6: // stray quote
@@ -604,6 +607,9 @@ func corpusTA(cfg *config) []string {
 		"dec mut " + hexStr("# Vehicle\n"),
 		"dec mut " + hexStr("# Lap 3\n"),
 		"dec mut " + hexStr("# Session End\n"),
+		"dec mut " + hexStr("# End Point: 50.857952, -0.752617  @ 1.2.3 deg\nTime\n1.000\n"),
+		"dec mut " + hexStr("# End Point: 50.857952, -0.752617  @ - deg\nTime\n1.000\n"),
+		"dec mut " + hexStr("# End Point: 50.8.5, -0.752617  @ 10 deg\nTime\n1.000\n"),
 		"dec wf " + hexStr("Accuracy (ft)\n10\n"),
 		"dec wf " + hexStr(""),
 		"dec wf " + hexStr("Time\n"),
